@@ -280,6 +280,9 @@ func pwCompile(code, tmpl string) pwTemplate {
 		case "c":
 			re.WriteString("((?:" + pwQuoted + " -> )*" + pwQuoted + ")")
 			kinds = append(kinds, 'l')
+		case "o":
+			re.WriteString(`((?: on Windows| on macOS or Linux)?)`)
+			kinds = append(kinds, 'n')
 		case "p":
 			re.WriteString(`(line:\d+,col:\d+)`)
 			kinds = append(kinds, 'p')
